@@ -144,12 +144,23 @@ def atom_text(x) -> str:
 
 # ----------------------------------------------------------------------- printing impl values
 MAXDEPTH = 40
+MAXNODES = 60000          # per re-observation of all values; a cyclic or exploding structure is cut
+
+
+class TooBig(Exception):
+    pass
+
+
+_budget = [0]
 
 
 def show_item(x, sort: bool, depth: int = 0) -> str:
     from elementpath.xpath_tokens import XPathMap, XPathArray
     if depth > MAXDEPTH:
         return 'CYCLE'
+    _budget[0] -= 1
+    if _budget[0] < 0:
+        raise TooBig()
     if isinstance(x, XPathMap):
         parts = [atom_text(k) + '=' + show_seq(v, sort, depth + 1) for k, v in x.items()]
         return '{' + ','.join(sorted(parts) if sort else parts) + '}'
@@ -324,7 +335,30 @@ def err_text(e: BaseException) -> str:
     return f'ERR:OTHER:{type(e).__name__}'
 
 
-def run_impl(ops):
+class CaseTimeout(Exception):
+    pass
+
+
+def _alarm(signum, frame):
+    raise CaseTimeout()
+
+
+def run_impl(ops, seconds: int = 10):
+    """run_impl_inner under a watchdog: a history that does not finish (cyclic or exploding
+    structure after an in-place mutation) is an observation, not a harness fault"""
+    import signal
+    old = signal.signal(signal.SIGALRM, _alarm)
+    signal.alarm(seconds)
+    try:
+        return run_impl_inner(ops)
+    except CaseTimeout:
+        return [('ERR:OTHER:Timeout', ['TIMEOUT'], ['TIMEOUT'])] * len(ops)
+    finally:
+        signal.alarm(0)
+        signal.signal(signal.SIGALRM, old)
+
+
+def run_impl_inner(ops):
     """evaluate the history with the real code; returns per step (status, [raw prints], [sorted prints])"""
     _setup()
     from elementpath import XPathContext
@@ -347,10 +381,12 @@ def run_impl(ops):
         values.append(res)
         orderings.append(op_ordering(op))
         try:
+            _budget[0] = MAXNODES
             raw = [show_val(x, False, o) for x, o in zip(values, orderings)]
+            _budget[0] = MAXNODES
             srt = [show_val(x, True, o) for x, o in zip(values, orderings)]
-        except RecursionError:
-            raw = srt = ['CYCLE'] * len(values)
+        except (RecursionError, TooBig):
+            raw = srt = ['CYCLE-OR-TOO-BIG'] * len(values)
         except Exception as e:  # noqa
             raw = srt = [f'ERR:OTHER:{type(e).__name__}'] * len(values)
         out.append((status, raw, srt))
@@ -406,7 +442,8 @@ class Gen:
     def __init__(self, rng, quick=True):
         self.rng = rng
         self.ops = []
-        self.types = []     # 'map' | 'arr' | 'seq' | 'maps' | 'arrs' | 'free' | 'err?'
+        self.types = []     # 'map' | 'arr' | 'seq' | 'maps' | 'arrs' | 'free'
+        self.sizes = []
         r = rng.random()
         self.flavour = ('clash' if r < 0.06 else 'dates-naive' if r < 0.26 else 'dates-aware' if r < 0.46
                         else 'plain')
@@ -426,9 +463,43 @@ class Gen:
         c = [i for i, t in enumerate(self.types) if t not in ('free',)]
         return self.rng.choice(c) if c else None
 
+    LIMIT = 300
+
+    def est(self, op) -> int:
+        """upper estimate of the number of leaves of the result (keeps deep prints small)"""
+        sz = self.sizes
+        n = op[0]
+        if n == 'seq':
+            return sum(sz[a] if isinstance(a, int) else 1 for a in op[1])
+        if n == 'mctor':
+            return sum(sz[i] + 1 for _, i in op[1])
+        if n == 'mput':
+            return sz[op[1]] + sz[op[3]] + 1
+        if n == 'mentry':
+            return sz[op[2]] + 1
+        if n in ('mcontains', 'msize', 'asize'):
+            return 1
+        if n == 'mfind':
+            return sz[op[1]] * 3 + 1
+        if n == 'mforeach':
+            return sz[op[1]] * 2 + 1
+        if n == 'lookup':
+            return sz[op[1]] * (1 if op[2] == '*' else len(op[2])) + 1
+        if n == 'asquare':
+            return sum(sz[i] for i in op[1]) + 1
+        if n in ('aput', 'ainsert'):
+            return sz[op[1]] + sz[op[3]] + 1
+        if n == 'aappend':
+            return sz[op[1]] + sz[op[2]] + 1
+        return sz[op[1]] + 1
+
     def add(self, op, typ):
+        e = self.est(op)
+        if e > self.LIMIT:
+            op, typ, e = ('seq', [self.key()]), 'seq', 1
         self.ops.append(op)
         self.types.append(typ)
+        self.sizes.append(e)
 
     def step(self):
         rng = self.rng
@@ -702,7 +773,8 @@ def compare(run: Run, cases, count=True) -> None:
             st.count(f'len={min(len(ops), 15) // 5 * 5}+')
         for k, ((ms, ss, ok, triples), (istat, iraw, isrt)) in enumerate(zip(blocks, impl)):
             op = ops[k]
-            prefix = {'ops': [op_xpath(o) for o in ops[:k + 1]], 'line': line_of(ops[:k + 1])}
+            prefix = {'ops': [op_xpath(o) for o in ops[:k + 1]], 'line': line_of(ops[:k + 1]),
+                      'history': to_jsonable(ops[:k + 1])}
             if count:
                 st.count('op:' + op[0])
                 st.count('status:' + (istat if istat.startswith('ERR') else 'ok'))
@@ -729,6 +801,79 @@ def compare(run: Run, cases, count=True) -> None:
                 stop = True
             if stop:
                 break
+
+
+def to_jsonable(x):
+    if isinstance(x, (tuple, list)):
+        return [to_jsonable(y) for y in x]
+    return x
+
+
+def from_jsonable(ops):
+    """inverse of to_jsonable for histories (keys and ops are tuples, argument lists are lists)"""
+    def key(k):
+        kind, p = k
+        return (kind, tuple(p)) if kind == 't' else (kind, p)
+
+    def is_key(x):
+        return isinstance(x, list) and len(x) == 2 and isinstance(x[0], str) and x[0] in 'idfsubt' and len(x[0]) == 1
+
+    def conv(x):
+        if is_key(x):
+            return key(x)
+        if isinstance(x, list):
+            return [conv(y) for y in x]
+        return x
+    out = []
+    for op in ops:
+        n = op[0]
+        args = [conv(a) for a in op[1:]]
+        if n == 'mctor':
+            args = [[(kv[0], kv[1]) for kv in args[0]]]
+        out.append((n, *args))
+    return out
+
+
+def op_vars(op):
+    """indices of earlier steps an op refers to"""
+    n = op[0]
+    if n == 'seq':
+        return [a for a in op[1] if isinstance(a, int)]
+    if n == 'mctor':
+        return [i for _, i in op[1]]
+    if n == 'asquare':
+        return list(op[1])
+    if n == 'mentry':
+        return [op[2]]
+    if n in ('mput', 'aput', 'ainsert'):
+        return [op[1], op[3]]
+    if n == 'aappend':
+        return [op[1], op[2]]
+    return [op[1]]
+
+
+def rename_vars(op, f):
+    n = op[0]
+    if n == 'seq':
+        return (n, [f(a) if isinstance(a, int) else a for a in op[1]])
+    if n == 'mctor':
+        return (n, [(k, f(i)) for k, i in op[1]])
+    if n == 'asquare':
+        return (n, [f(i) for i in op[1]])
+    if n == 'mentry':
+        return (n, op[1], f(op[2]))
+    if n in ('mput', 'aput', 'ainsert'):
+        return (n, f(op[1]), op[2], f(op[3]))
+    if n == 'aappend':
+        return (n, f(op[1]), f(op[2]))
+    return (n, f(op[1]), *op[2:])
+
+
+def drop_step(ops, i):
+    """history without step i, or None when a later step needs it"""
+    if any(i in op_vars(o) for o in ops[i + 1:]):
+        return None
+    return [rename_vars(o, lambda j: j - 1 if j > i else j) for k, o in enumerate(ops) if k != i]
 
 
 def first_diff(a, b):
@@ -808,9 +953,36 @@ def search(run: Run):
 
 
 def shrink(d: Disagreement) -> Disagreement:
-    """the reported prefix already ends at the first failing step; drop earlier steps that the
-    failing step does not (transitively) depend on"""
-    return d
+    """the reported prefix already ends at the first failing step; greedily drop every earlier step
+    whose removal keeps a disagreement of the same kind (re-running model, spec and real code)"""
+    if not isinstance(d.case, dict) or 'history' not in d.case:
+        return d
+    ops = from_jsonable(d.case['history'])
+    best = d
+
+    def fails(cand):
+        sub = Run(PROP, 'quick', 0)
+        compare(sub, [cand], count=False)
+        for x in sub.disagreements:
+            if x.kind == d.kind and bool(x.tags) == bool(d.tags):
+                return x
+        return None
+    changed = True
+    rounds = 0
+    while changed and rounds < 6:
+        changed = False
+        rounds += 1
+        i = len(ops) - 2
+        while i >= 0 and len(ops) > 1:
+            cand = drop_step(ops, i)
+            if cand is not None:
+                x = fails(cand)
+                if x is not None:
+                    ops = from_jsonable(x.case['history'])
+                    best = x
+                    changed = True
+            i = min(i, len(ops) - 1) - 1
+    return best
 
 
 # --------------------------------------------------------------------------------- body
@@ -828,6 +1000,14 @@ def body(run: Run) -> int:
     ]
     run.prove(['EPV.Props.C15'], ['EPV.Lemmas.MapArrayKeys'])
     try:
+        if getattr(run, 'replay', None):
+            import json
+            payload = json.loads(Path(run.replay).read_text())
+            hist = ((payload.get('failing_input') or {}).get('case') or {}).get('history')
+            if hist:
+                run.stats.rule = 'replay of ' + str(run.replay)
+                compare(run, [from_jsonable(hist)])
+                return run.finish('proof', shrink=shrink, search=None)
         correspond(run)
     except DriverError as e:
         run.broken.append('driver:C15 ' + str(e)[:300])
